@@ -1,20 +1,41 @@
 """C04 - analysis output is a pure function of the source and the options.
 
-Determinism.tla enumerates the history space (which process, i.e. which hash seed, analyses which
-program with a fresh or a reused loader, in which order).  The driver instantiates the abstract
-programs with concrete ones (ProgGen programs and test snippets that import several modules),
-executes the histories on real worker processes started with different PYTHONHASHSEED values and
-records, per analysis, digests of the stub text, of the ordered error report and of the pickled
-stub.  TraceC04.tla replays each recorded history through the spec's Observe action: every
-observation of one program must equal the first one; error reports must be sorted and unique.
+Determinism.tla models processes (hash seeds) that analyse programs one after the other, with an
+option set (default / protocols), a fresh or a reused loader and possibly after some amount of
+unrelated earlier work; the property: one observation per (program, options) whatever the
+circumstances.  TLC enumerates the history space in three configurations:
+
+  mixed   all 3-step histories over 3 processes x 3 programs x 2 option sets x 2 loader modes x
+          warm-ups {0, 4}, up to renaming; sampled histories are executed literally (several of
+          them back to back on one group of worker processes, so later ones run after more work)
+  seeds   all pairs of analyses over SIX processes = six hash seeds; executed as one session in
+          which every process analyses every program of the union family (SigGen.tla: annotated
+          signatures over unions from an alphabet with the PEP 484 compat pairs, None, containers,
+          in every position of a signature), the open-function family and some ProgGen programs
+  prefix  all pairs of "amounts of earlier work" 0..12 over processes with the SAME hash seed;
+          executed as one session of 13 processes: process n first does n units of unrelated work
+          (a unit = one un-annotated parameter of another module) and then analyses the same
+          sequence of programs (open functions with option protocols, ...), so that every program
+          is analysed at 13 consecutive offsets of whatever per-process counters exist, and once
+          more at the end of the sequence.
+
+The driver instantiates the abstract programs, executes the histories on real worker processes
+(c04_worker.py) and records per analysis digests of the stub text, of the ordered error report
+and of the pickled stub.  TraceC04.tla replays each recorded session through the spec's Observe
+action and gives the verdict (which parts differ, and which circumstance - hash seed, earlier
+work, loader mode - distinguishes the closest differing observation); error reports must be
+sorted and unique.
 """
 import argparse
+import concurrent.futures as cf
+import hashlib
 import json
 import os
 import random
 import re
 import subprocess
 import sys
+import threading
 
 sys.path.insert(0, os.path.dirname(os.path.abspath(__file__)))
 import boot  # noqa: E402
@@ -23,14 +44,43 @@ import progterms  # noqa: E402
 import tlc  # noqa: E402
 
 PID = "C04"
-PROCS = ["a", "b", "c"]
-PROGS = ["p1", "p2", "p3"]
-CONSTS = 'CONSTANTS\n Procs = {"a", "b", "c"}\n Progs = {"p1", "p2", "p3"}\n MaxSteps = %d\n Export = %s\n'
+OPTS = ["default", "protocols"]
+PARAM_POS = ["param", "default", "method", "star", "nested"]
+OTHER_POS = ["return", "attr", "var"]
+N_SEEDS = 6
+WARMUPS = list(range(13))
+
+CFG = ("CONSTANTS\n Procs = {%s}\n Progs = {%s}\n Opts = {%s}\n Warmups = {%s}\n MaxSteps = %d\n"
+       " Export = %s\n SameSeed = %s\n Canonical = %s\n")
 
 
+def det_cfg(procs, progs, opts, warm, steps, export="TRUE", same="FALSE", canon="TRUE"):
+  return CFG % (",".join(str(x) for x in range(1, procs + 1)),
+                ",".join(str(x) for x in range(1, progs + 1)),
+                ",".join('"%s"' % o for o in opts), ",".join(str(w) for w in warm), steps,
+                export, same, canon)
+
+
+MODEL_CFGS = {
+    "mixed": det_cfg(3, 3, OPTS, [0, 4], 3),
+    "seeds": det_cfg(N_SEEDS, 1, ["default"], [0], 2, canon="FALSE"),
+    "prefix": det_cfg(2, 1, OPTS, WARMUPS, 2, same="TRUE"),
+}
+
+
+def run_model(name):
+  r = tlc.run("Determinism", "SPECIFICATION Spec\n" + MODEL_CFGS[name] +
+              "INVARIANT Consistent\nINVARIANT ExportInv\n", workers=1, timeout=1800)
+  if r.violated:
+    raise common.Machinery("Determinism.tla (%s) violated %s" % (name, r.violated))
+  return r
+
+
+# ---------------------------------------------------------------------------------- programs
 def snippets(limit, rng):
   """Programs from the repository's own tests that import modules (loader state matters)."""
   import glob
+  import textwrap
   out = []
   allowed = ("typing", "collections", "enum", "abc", "os", "sys", "types")
   for fn in sorted(glob.glob(os.path.join(boot.REPO, "pytype", "tests", "test_*.py"))):
@@ -40,7 +90,6 @@ def snippets(limit, rng):
       body = m.group(1)
       if "import" not in body or len(body) > 1500 or "\\" in body:
         continue
-      import textwrap
       src = textwrap.dedent(body).strip("\n") + "\n"
       mods = re.findall(r"^\s*(?:from|import)\s+([A-Za-z_\.]+)", src, re.M)
       if not mods or any(x.split(".")[0] not in allowed for x in mods):
@@ -54,14 +103,95 @@ def snippets(limit, rng):
   return out[:limit]
 
 
+def union_sig(idx, members, pos):
+  """One signature of the union family (SigGen.tla) -> (module-level text, class-level text)."""
+  r = idx % len(members)
+  u = "Union[%s]" % ", ".join(members[r:] + members[:r])
+  if pos == "param":
+    s = "def f%d(x: %s) -> None: ...\n" % (idx, u)
+    if idx % 3 == 0:    # the union also shows up in an error message
+      s += "f%d(object())\n" % idx
+    return s, ""
+  if pos == "default":
+    return "def d%d(x: %s = ...) -> None: ...\n" % (idx, u), ""
+  if pos == "method":
+    return "", "  def m%d(self, x: %s) -> None: ...\n" % (idx, u)
+  if pos == "star":
+    return "def s%d(*a: %s, **k: %s) -> None: ...\n" % (idx, u, u), ""
+  if pos == "nested":
+    return "def n%d(x: List[%s], y: Dict[str, %s]) -> None: ...\n" % (idx, u, u), ""
+  if pos == "return":
+    return "def r%d() -> %s: ...\n" % (idx, u), ""
+  if pos == "attr":
+    return "", "  a%d: %s\n" % (idx, u)
+  if pos == "var":
+    return "v%d: %s = ...\n" % (idx, u), ""
+  raise ValueError(pos)
+
+
+def union_programs(sigs, per):
+  """sigs: list of (members, pos); programs of `per` signatures each."""
+  out = []
+  for k in range(0, len(sigs), per):
+    top, cls = [], []
+    for j, (members, pos) in enumerate(sigs[k:k + per]):
+      a, b = union_sig(k + j, members, pos)
+      top.append(a)
+      cls.append(b)
+    src = "from typing import Dict, List, Union\n" + "".join(top)
+    if any(cls):
+      src += "class K:\n" + "".join(cls)
+    out.append(src)
+  return out
+
+
+def open_fn(idx, it):
+  """One open function of SigGen.tla -> (module-level text, class-level text)."""
+  n = it["n"]
+  ps = ["p%d" % (j + 1) for j in range(n)]
+  first, second, last = ps[0], ps[min(1, n - 1)], ps[-1]
+  ret = {"rot": "(%s,)" % ", ".join([last] + ps[:-1]),
+         "list": "[%s, %s]" % (first, last),
+         "dict": "{%s: %s}" % (first, last),
+         "first": first,
+         "cond": "%s if %s else %s" % (first, second, last),
+         "nest": "((%s, %s), [%s])" % (first, last, second)}[it["ret"]]
+  params = list(ps)
+  if it["star"]:
+    params += ["*rest", "key=None", "**extra"]
+  if it["meth"]:
+    return "", "  def m%d(self, %s):\n    return %s\n" % (idx, ", ".join(params), ret)
+  return "def g%d(%s):\n  return %s\n" % (idx, ", ".join(params), ret), ""
+
+
+def open_programs(items, per):
+  out = []
+  for k in range(0, len(items), per):
+    top, cls = [], []
+    for j, it in enumerate(items[k:k + per]):
+      a, b = open_fn(k + j, it)
+      top.append(a)
+      cls.append(b)
+    src = "".join(top)
+    if any(cls):
+      src += "class B:\n" + "".join(cls)
+    out.append(src)
+  return out
+
+
+def pid_of(src):
+  return "s" + hashlib.sha1(src.encode()).hexdigest()[:10]
+
+
+# ---------------------------------------------------------------------------------- execution
 class Worker:
   def __init__(self, seed):
     env = boot.child_env(seed)
     self.p = subprocess.Popen([sys.executable, os.path.join(os.path.dirname(__file__), "c04_worker.py")],
                               stdin=subprocess.PIPE, stdout=subprocess.PIPE, env=env, text=True)
 
-  def ask(self, src, mode):
-    self.p.stdin.write(json.dumps({"src": src, "mode": mode}) + "\n")
+  def ask(self, req):
+    self.p.stdin.write(json.dumps(req) + "\n")
     self.p.stdin.flush()
     line = self.p.stdout.readline()
     if not line:
@@ -76,23 +206,54 @@ class Worker:
       self.p.kill()
 
 
-def execute(job):
-  triple, hist, seeds = job
-  workers = {}
-  steps = []
+def run_proc(args):
+  """All steps of one worker process of one session, in order (processes do not interact, so
+  the processes of a session run concurrently; the session's step order is only the order in
+  which the spec replays the observations)."""
+  seed, reqs = args
+  w = Worker(seed)
   try:
-    for proc, prog, mode in hist:
-      if proc not in workers:
-        workers[proc] = Worker(seeds[proc])
-      o = workers[proc].ask(triple[prog], mode)
-      steps.append({"proc": proc, "prog": prog, "mode": mode, "seed": seeds[proc],
-                    "obs": o["obs"], "errs": o["errs"], "nraw": o["nraw"], "pyi": o["pyi"]})
+    return [w.ask(r) for r in reqs]
   finally:
-    for w in workers.values():
-      w.close()
+    w.close()
+
+
+def execute(jobs, pool):
+  """jobs: [{"family", "seeds": {proc: seed}, "progs": {id: src}, "steps": [{proc, prog, opt,
+  mode, warm}]}] -> per job the steps completed with seed, obs, errs, pyi."""
+  futs = []
+  for j in jobs:
+    per = {}
+    for n, s in enumerate(j["steps"]):
+      per.setdefault(s["proc"], []).append(n)
+    for proc, idxs in per.items():
+      reqs = [{"src": j["progs"][j["steps"][n]["prog"]], "mode": j["steps"][n]["mode"],
+               "opt": j["steps"][n]["opt"], "warm": j["steps"][n]["warm"]} for n in idxs]
+      futs.append((j, idxs, pool.submit(run_proc, (j["seeds"][proc], reqs))))
+  results = {id(j): [None] * len(j["steps"]) for j in jobs}
+  for j, idxs, f in futs:
+    for n, o in zip(idxs, f.result()):
+      results[id(j)][n] = dict(j["steps"][n], seed=j["seeds"][j["steps"][n]["proc"]], **o)
+  return [results[id(j)] for j in jobs]
+
+
+def session_steps(procs, seq, first_warm, repeat):
+  """The session shape of the seeds / prefix families, linearised program by program: every
+  process analyses the sequence seq = [(prog, opt, mode)] in the same order (process p after
+  first_warm[p] units of unrelated work), then the programs of `repeat` once more, process p
+  after repeat[k][3][p] further units."""
+  steps = []
+  for n, (prog, opt, mode) in enumerate(seq):
+    for p in procs:
+      steps.append({"proc": p, "prog": prog, "opt": opt, "mode": mode,
+                    "warm": first_warm[p] if n == 0 else 0})
+  for prog, opt, mode, warm in repeat:
+    for p in procs:
+      steps.append({"proc": p, "prog": prog, "opt": opt, "mode": mode, "warm": warm[p]})
   return steps
 
 
+# ---------------------------------------------------------------------------------- main
 def main():
   ap = argparse.ArgumentParser()
   ap.add_argument("--tier", default="quick")
@@ -102,81 +263,213 @@ def main():
   boot.boot()
   thorough = run.tier == "thorough"
   rng = random.Random(run.seed)
-  # 1. the history space
-  r = tlc.run("Determinism", "SPECIFICATION Spec\n" + CONSTS % (3, "TRUE") +
-              "INVARIANT Consistent\nINVARIANT ExportInv\n", workers=1, timeout=1800)
-  if r.violated:
-    raise common.Machinery("Determinism.tla violated %s" % r.violated)
-  run.put("states", r.distinct)
-  run.put("transitions", r.generated)
-  hists = [c["h"] for c in r.cases]
-  common.require(len(hists) > 500, "history space too small: %d" % len(hists))
-  run.put("histories_in_model", len(hists))
-  # 2. concrete programs
-  import c01
+  pool = cf.ThreadPoolExecutor(max_workers=8)
+  jvm = cf.ThreadPoolExecutor(max_workers=3)
+
   if a.replay:
     with open(a.replay) as f:
       case = json.load(f)["case"]
-    jobs = [(case["triple"], case["history"], case["seeds"])]
+    jobs = [case["job"]]
+    models = {}
   else:
+    import c01
+    # 1. the models: history spaces, program generators (JVMs side by side)
+    fm = {name: jvm.submit(run_model, name) for name in MODEL_CFGS}
     nprog = 240 if thorough else 45
-    rr = tlc.run("ProgGen", c01.gen_cfg(9, 2), workers=1, timeout=3000, seed=run.seed + 40,
-                 simulate="num=%d" % nprog, depth=12)
+    fp = jvm.submit(tlc.run, "ProgGen", c01.gen_cfg(9, 2), workers=1, timeout=3000,
+                    seed=run.seed + 40, simulate="num=%d" % nprog, depth=12)
+    fs = jvm.submit(tlc.run, "SigGen", "INIT Init\nNEXT Next\nCONSTANTS MaxUnion = %d\n MaxParams = 6\n"
+                    "INVARIANT ExportInv\n" % (5 if thorough else 4), workers=1, timeout=3000)
+    rr = fp.result()
     common.require(not rr.violated and len(rr.cases) >= nprog, "ProgGen failed")
-    progs = ["".join(progterms.stmt(s) for s in c["p"]) for c in rr.cases]
-    progs += snippets(120 if thorough else 27, rng)
-    rng.shuffle(progs)
-    triples = [dict(zip(PROGS, progs[k:k + 3])) for k in range(0, len(progs) - 2, 3)]
-    per = 12 if thorough else 4
+    gen = ["".join(progterms.stmt(s) for s in c["p"]) for c in rr.cases]
+    snip = snippets(120 if thorough else 27, rng)
+    rs = fs.result()
+    common.require(not rs.violated and rs.cases, "SigGen failed")
+    unions = sorted((c for c in rs.cases if c["kind"] == "union"), key=lambda c: c["u"])
+    fns = sorted((c for c in rs.cases if c["kind"] == "fn"),
+                 key=lambda c: (c["n"], c["ret"], c["meth"], c["star"]))
+    run.put("siggen_states", rs.distinct)
+    run.put("unions_in_model", len(unions))
+    run.put("sensitive_unions_in_model", sum(1 for c in unions if c["sens"]))
+    run.put("open_functions_in_model", len(fns))
+
+    # 2a. union family: every Sensitive union in parameter positions, the others in a slice
+    sigs = []
+    sens = [c for c in unions if c["sens"]]
+    rest = [c for c in unions if not c["sens"]]
+    rng.shuffle(rest)
+    for n, c in enumerate(sens):
+      poss = PARAM_POS + OTHER_POS if thorough else [PARAM_POS[(n + run.seed) % 5]]
+      sigs += [(c["u"], p) for p in poss]
+    for n, c in enumerate(rest if thorough else rest[:70]):
+      poss = PARAM_POS + OTHER_POS if thorough else [(PARAM_POS + OTHER_POS)[(n + run.seed) % 8]]
+      sigs += [(c["u"], p) for p in poss]
+    rng.shuffle(sigs)
+    uprogs = union_programs(sigs, 44)
+    n_sens_param = sum(1 for u, p in sigs if p in PARAM_POS and
+                       any(c["u"] == u and c["sens"] for c in sens))
+    run.put("union_signatures", len(sigs))
+    run.put("sensitive_unions_in_parameter_position", n_sens_param)
+    common.require(n_sens_param >= 150 and len({p for _, p in sigs}) == 8,
+                   "vacuity: union family too small (%d sensitive parameter unions)" % n_sens_param)
+    # 2b. open-function family
+    multi = [c for c in fns if c["reused"] >= 2]
+    rng.shuffle(fns)
+    oprogs = open_programs(fns if thorough else fns[:72], 6)
+    common.require(len(multi) >= 60, "vacuity: open-function family too small")
+    n_multi = sum(1 for c in (fns if thorough else fns[:72]) if c["reused"] >= 2)
+    common.require(n_multi >= 24, "vacuity: too few open functions with >= 2 re-used parameters")
+    run.put("open_functions_multi_typevar", n_multi)
+
+    rng.shuffle(gen)
+    rng.shuffle(snip)
     jobs = []
-    for t in triples:
-      # several model histories concatenated: the processes keep their state in between
-      h = []
-      for hh in rng.sample(hists, per):
-        h += [tuple(x) for x in hh]
-      seeds = {"a": "0", "b": str(rng.randrange(1, 10**6)), "c": str(rng.randrange(1, 10**6))}
-      jobs.append((t, h, seeds))
-  import concurrent.futures as cf
-  with cf.ThreadPoolExecutor(max_workers=6) as ex:
-    results = list(ex.map(execute, jobs))
-  cases = []
-  for steps in results:
-    cases.append({"steps": [{"proc": s["proc"], "prog": s["prog"], "mode": s["mode"],
-                             "obs": s["obs"], "errs": s["errs"]} for s in steps]})
-  nv, bad, rr = tlc.validate_cases("TraceC04", cases, cfg="INIT TInit\nNEXT TNext\n" +
-                                   CONSTS % (1000000, "FALSE") + "INVARIANT Ok\nPOSTCONDITION Done\n",
-                                   timeout=3000)
+    # 3a. seeds session: six hash seeds, every process analyses every program
+    procs = ["h%d" % k for k in range(1, N_SEEDS + 1)]
+    hs = ["0", "1", "2"] + [str(rng.randrange(3, 10**6)) for _ in range(N_SEEDS - 3)]
+    sprogs = ([(s, "default") for s in uprogs] + [(s, "protocols") for s in oprogs[:3]] +
+              [(s, rng.choice(OPTS)) for s in gen[:4] + snip[:2]])
+    progs = {pid_of(s): s for s, _ in sprogs}
+    seq = [(pid_of(s), o, rng.choice(["fresh", "reused"])) for s, o in sprogs]
+    jobs.append({"family": "seeds", "seeds": dict(zip(procs, hs)), "progs": progs,
+                 "steps": session_steps(procs, seq, {p: 0 for p in procs}, [])})
+    # 3b. prefix session: one hash seed, process n starts after n units of unrelated work
+    procs = ["w%d" % w for w in WARMUPS]
+    nopen = len(oprogs) if thorough else 7
+    pprogs = ([(s, "protocols") for s in oprogs[:nopen]] + [(oprogs[-1], "default")] +
+              [(uprogs[0], "protocols")] + [(s, "protocols") for s in gen[4:6]])
+    first = pprogs[0]
+    tail = pprogs[1:]
+    rng.shuffle(tail)
+    pprogs = [first] + tail
+    progs = {pid_of(s): s for s, _ in pprogs}
+    seq = [(pid_of(s), o, "fresh" if n % 3 else "reused") for n, (s, o) in enumerate(pprogs)]
+    rep = [(seq[0][0], seq[0][1], seq[0][2], {p: (5 * w) % 13 for p, w in zip(procs, WARMUPS)}),
+           (seq[1][0], seq[1][1], seq[1][2], {p: 0 for p in procs})]
+    jobs.append({"family": "prefix", "seeds": {p: hs[0] for p in procs}, "progs": progs,
+                 "steps": session_steps(procs, seq, dict(zip(procs, WARMUPS)), rep)})
+    # 3c. mixed histories (need the model's histories)
+    models = {name: f.result() for name, f in fm.items()}
+    hists = [c["h"] for c in models["mixed"].cases]
+    common.require(len(hists) > 500, "history space too small: %d" % len(hists))
+    mprogs = gen[6:] + snip[2:] + oprogs[3:6] + uprogs[:1]
+    rng.shuffle(mprogs)
+    ngroups = 20 if thorough else 5
+    pergroup = 12 if thorough else 4
+    per = 6 if thorough else 4
+    triples = [mprogs[k:k + 3] for k in range(0, len(mprogs) - 2, 3)][:ngroups * pergroup]
+    for g in range(ngroups):
+      # several model histories back to back: the processes keep their state in between
+      names = {k: "m%d.%d" % (g, k) for k in (1, 2, 3)}
+      seeds = {names[1]: "0", names[2]: str(rng.randrange(1, 10**6)), names[3]: str(rng.randrange(1, 10**6))}
+      progs, steps = {}, []
+      for t in triples[g * pergroup:(g + 1) * pergroup]:
+        ids = {k + 1: pid_of(s) for k, s in enumerate(t)}
+        progs.update({pid_of(s): s for s in t})
+        for hh in rng.sample(hists, per):
+          steps += [{"proc": names[x["proc"]], "prog": ids[x["prog"]], "opt": x["opt"],
+                     "mode": x["mode"], "warm": x["warm"]} for x in hh]
+      if steps:
+        jobs.append({"family": "mixed", "seeds": seeds, "progs": progs, "steps": steps})
+
+  results = execute(jobs, pool)
+  cases = [{"steps": [{"proc": s["proc"], "seed": s["seed"], "prog": s["prog"], "opt": s["opt"],
+                       "mode": s["mode"], "warm": s["warm"], "obs": s["obs"], "errs": s["errs"]}
+                      for s in steps]} for steps in results]
+  nv, bad, rr = tlc.validate_cases(
+      "TraceC04", cases, cfg="INIT TInit\nNEXT TNext\n" + det_cfg(1, 1, OPTS, [0], 1000000, export="FALSE") +
+      "INVARIANT Ok\nINVARIANT Agree\nINVARIANT CovInv\nPOSTCONDITION Done\n", timeout=3000)
   common.require(bad is None, "TraceC04 invariant cannot fail")
+  cov = {c["i"] - 1: c["per"] for c in tlc.parse_cases(rr.out, "COV")}
+  common.require(len(cov) == len(cases), "TraceC04 did not report the coverage of every case")
+
   nsteps = sum(len(c["steps"]) for c in cases)
   run.put("traces_validated_against_impl", nv)
   run.put("analyses", nsteps)
   run.put("evaluations", nsteps)
-  run.put("program_triples", len(jobs))
-  run.put("distinct_nontrivial", len({(json.dumps(j[0], sort_keys=True)) for j in jobs}) * 3)
-  run.put("rule", "one case = one program triple x a history of analyses over 3 processes (hash seeds 0 and two random) and 2 loader modes; distinct_nontrivial = distinct programs analysed at least twice under different circumstances")
+  run.put("sessions", len(jobs))
+  run.put("worker_processes", sum(len(j["seeds"]) for j in jobs))
+  keys = [(j["family"], p["prog"], p["opt"], p) for n, j in enumerate(jobs) for p in cov[n]]
+  run.put("distinct_nontrivial", sum(1 for k in keys if k[3]["n"] >= 2))
+  run.put("rule", "one case = one session of worker processes (mixed: 3 processes, hash seeds 0 and two random, "
+          "sampled model histories back to back; seeds: 6 hash seeds x every program; prefix: 13 processes with one "
+          "hash seed starting after 0..12 units of earlier work x the same program sequence); distinct_nontrivial = "
+          "distinct (program, options) analysed at least twice under different circumstances")
   run.put("errors_seen", sum(len(s["errs"]) for st in results for s in st))
   run.put("exceptions_seen", sum(1 for st in results for s in st if s["obs"][0].startswith("exc:")))
-  run.sample({"history": [list(x) for x in jobs[0][1][:6]], "seeds": jobs[0][2],
-              "obs": results[0][0]["obs"]})
+  for j, st in zip(jobs[:3], results):
+    run.sample({"family": j["family"], "seeds": j["seeds"],
+                "history": [[s["proc"], s["prog"], s["opt"], s["mode"], s["warm"]] for s in j["steps"][:6]],
+                "obs": st[0]["obs"]})
+
+  if not a.replay:
+    for name, r in models.items():
+      run.put("states_" + name, r.distinct)
+      run.put("histories_in_model_" + name, len(r.cases))
+    run.put("states", sum(r.distinct for r in models.values()))
+    run.put("transitions", sum(r.generated for r in models.values()))
+    run.put("histories_in_model", sum(len(r.cases) for r in models.values()))
+    # vacuity guards, stated on what the spec counted per (program, options) of each session
+    fam = {f: [k[3] for k in keys if k[0] == f] for f in ("seeds", "prefix", "mixed")}
+    common.require(fam["seeds"] and all(p["seeds"] == N_SEEDS for p in fam["seeds"]),
+                   "vacuity: seeds session did not analyse every program under %d hash seeds" % N_SEEDS)
+    common.require(fam["prefix"] and all(p["works"] >= len(WARMUPS) and p["seeds"] == 1 for p in fam["prefix"]),
+                   "vacuity: prefix session did not analyse every program after %d amounts of work" % len(WARMUPS))
+    nproto = sum(1 for p in fam["prefix"] if p["opt"] == "protocols")
+    common.require(nproto >= 8, "vacuity: prefix session has only %d programs with option protocols" % nproto)
+    common.require(sum(1 for p in fam["mixed"] if p["n"] >= 2) >= (100 if thorough else 25) and
+                   {p["opt"] for p in fam["mixed"]} == set(OPTS),
+                   "vacuity: mixed histories repeat too few (program, options)")
+    # the executed sessions embed every pair of the seeds / prefix models
+    want = {(h[0]["proc"], h[1]["proc"]) for h in (c["h"] for c in models["seeds"].cases)
+            if h[0]["proc"] != h[1]["proc"]}
+    common.require(len(want) == N_SEEDS * (N_SEEDS - 1), "seeds model: %d process pairs" % len(want))
+    want = {(h[0]["warm"], h[1]["warm"]) for h in (c["h"] for c in models["prefix"].cases)
+            if h[0]["proc"] != h[1]["proc"] and h[0]["warm"] != h[1]["warm"]}
+    st = [s for s in jobs[1]["steps"] if s["prog"] == jobs[1]["steps"][0]["prog"]][:len(WARMUPS)]
+    have = {(x["warm"], y["warm"]) for x in st for y in st if x["proc"] != y["proc"]}
+    common.require(want and want <= have, "vacuity: prefix session misses %d of the model's pairs of "
+                   "amounts of earlier work" % len(want - have))
+    run.put("prefix_pairs_embedded", len(want))
+    same = {(h[0]["warm"], h[1]["warm"]) for h in (c["h"] for c in models["prefix"].cases)
+            if h[0]["proc"] == h[1]["proc"]}
+    run.put("prefix_same_process_pairs_in_model", len(same))
+    # the unsolved part of the protocols dimension must really have been printed
+    tv = sum(1 for st in results for s in st if s["opt"] == "protocols" and "_T1 = TypeVar" in s["pyi"])
+    common.require(tv >= 50, "vacuity: only %d protocols analyses printed >= 2 generated TypeVars" % tv)
+    run.put("protocols_analyses_with_typevars", tv)
+    un = sum(s["pyi"].count("Union[") for s in results[0] if s["proc"] == "h1")
+    common.require(un >= 200, "vacuity: only %d unions printed by the seeds session" % un)
+    run.put("unions_printed_per_process", un)
+
   for rb in tlc.parse_cases(rr.out, "BAD"):
     job = jobs[rb["i"] - 1]
     steps = results[rb["i"] - 1]
     s = steps[rb["k"] - 1]
     for f in rb["fails"]:
       if f == "differs":
-        first = [x for x in steps if x["prog"] == s["prog"]][0]
-        which = [n for n, (x, y) in zip(("pyi", "errors", "pickle"), zip(first["obs"], s["obs"])) if x != y]
-        key = "C04:differs:%s" % "+".join(which)
-        what = "program analysed in process %s (seed %s, %s loader) differs in %s from its first analysis (process %s, seed %s, %s loader)" % (
-            s["proc"], s["seed"], s["mode"], which, first["proc"], first["seed"], first["mode"])
-        payload = {"triple": job[0], "history": [list(x) for x in job[1][:rb["k"]]], "seeds": job[2],
-                   "src": job[0][s["prog"]], "pyi_first": first["pyi"], "pyi_now": s["pyi"],
-                   "errs_first": first["errs"], "errs_now": s["errs"]}
+        d = rb["diff"][0]
+        peer = [x for x in steps[:rb["k"] - 1] if x["prog"] == s["prog"] and x["opt"] == s["opt"] and
+                x["proc"] == d["peer"]["proc"] and x["obs"] != s["obs"]]
+        peer = peer[0] if peer else s
+        key = "C04:differs:%s:varies-with:%s" % ("+".join(sorted(d["parts"])), "+".join(sorted(d["dims"])))
+        import difflib
+        delta = [l for l in difflib.unified_diff(peer["pyi"].splitlines(), s["pyi"].splitlines(), lineterm="", n=0)
+                 if l[:1] in "+-" and l[:3] not in ("+++", "---")][:8]
+        what = ("%s session: program %s (options %s) analysed in process %s (hash seed %s, %s loader, after %d "
+                "units of work) differs in %s from the analysis in process %s (hash seed %s, %s loader, after %d "
+                "units of work); distinguishing circumstances: %s; %s" % (
+                    job["family"], s["prog"], s["opt"], s["proc"], s["seed"], s["mode"], d["now"]["work"],
+                    sorted(d["parts"]), d["peer"]["proc"], d["peer"]["seed"], d["peer"]["mode"], d["peer"]["work"],
+                    sorted(d["dims"]), " | ".join(delta)))
+        payload = {"job": job, "step": rb["k"], "src": job["progs"][s["prog"]], "opt": s["opt"],
+                   "pyi_peer": peer["pyi"], "pyi_now": s["pyi"], "errs_peer": peer["errs"], "errs_now": s["errs"],
+                   "diff": d}
       else:
         key = "C04:%s" % f
         what = "error report not sorted/unique: %s" % s["errs"]
-        payload = {"triple": job[0], "history": [list(x) for x in job[1][:rb["k"]]], "seeds": job[2],
-                   "src": job[0][s["prog"]]}
+        payload = {"job": job, "step": rb["k"], "src": job["progs"][s["prog"]], "opt": s["opt"]}
       run.violation(key, what, payload)
   return run.finish()
 
